@@ -287,6 +287,12 @@ LITS = [
     ("tracking_match", "wavespectra/partition/tracking.py", "match_consecutive_partitions"),
     ("tracking_np_track", "wavespectra/partition/tracking.py", "np_track_partitions"),
     ("tracking_dfp_swell", "wavespectra/partition/tracking.py", "dfp_swell"),
+    ("ww3_from_ww3", "wavespectra/input/ww3.py", "from_ww3"),
+    ("ncswan_from_ncswan", "wavespectra/input/ncswan.py", "from_ncswan"),
+    ("wwm_from_wwm", "wavespectra/input/wwm.py", "from_wwm"),
+    ("era5_from_era5", "wavespectra/input/era5.py", "from_era5"),
+    ("ndbc_construct_spectra", "wavespectra/input/ndbc.py", "_construct_spectra"),
+    ("ndbc_from_ndbc", "wavespectra/input/ndbc.py", "from_ndbc"),
     ("select_distance", "wavespectra/core/select.py", "Coordinates.distance"),
     ("select_swap", "wavespectra/core/select.py", "Coordinates._swap_longitude_convention"),
     ("select_sel_bbox", "wavespectra/core/select.py", "sel_bbox"),
@@ -337,6 +343,9 @@ def generate():
                 status[k.__name__] = f"untranslatable: {e}"
         text += "end WS.Gen\n"
         write_if_changed(gen / f"{fname}.lean", text)
+    from .translate_native import generate_native
+
+    status.update(generate_native(gen))
     return status
 
 
